@@ -22,8 +22,9 @@ from sympde.core.algebra import (Dot_1d, Inner_1d,
 from sympde.core.utils import random_string
 
 from sympde.calculus import jump, avg, minus, plus
-from sympde.calculus import Jump, Average, is_zero
+from sympde.calculus import Jump, Average, NormalDerivative, is_zero
 from sympde.calculus.core import _generic_ops, _diff_ops
+from sympde.calculus.core import Dot, Grad
 from sympde.calculus.matrices import SymbolicDeterminant, Inverse, Transpose
 from sympde.calculus.matrices import MatSymbolicPow, MatrixElement, SymbolicTrace
 
@@ -232,6 +233,47 @@ def _to_matrix_form(expr, *, trials=None, tests=None, domain=None):
     return ImmutableDenseMatrix(M)
 
 #==============================================================================
+def _restrict_to_side(side, expr):
+    """
+    Restriction of an expression to one side of an interface, written with
+    restrictions of functions (and of the normal vector) only: taking the value
+    on one side commutes with sums, products, powers and with the algebraic and
+    differential operators.
+
+    Parameters
+    ----------
+    side : MinusInterfaceOperator | PlusInterfaceOperator
+        The restriction to apply.
+
+    expr : sympy.Expr
+        Expression to restrict.
+
+    Returns
+    -------
+    sympy.Expr
+        The expression in which every function (and normal vector) is replaced
+        by its restriction; coefficients and already restricted terms are kept.
+
+    """
+    if isinstance(expr, (minus, plus)) or isinstance(expr, _coeffs_registery):
+        return expr
+
+    atoms = (ScalarFunction, VectorFunction, IndexedVectorFunction, NormalVector, TangentVector)
+    if isinstance(expr, atoms) or not expr.args:
+        return side(expr)
+
+    if isinstance(expr, NormalDerivative):
+        # Dn(w) is dot(grad(w), n)
+        n = NormalVector('n')
+        return _restrict_to_side(side, Dot(Grad(expr.args[0]), n))
+
+    if isinstance(expr, (Matrix, ImmutableDenseMatrix)):
+        return expr.applyfunc(lambda a: _restrict_to_side(side, a))
+
+    args = [_restrict_to_side(side, a) for a in expr.args]
+    return expr.func(*args)
+
+#==============================================================================
 def _split_expr_over_interface(expr, interface, tests=None, trials=None):
     """
     Splits an expression defined on an interface, into
@@ -275,11 +317,12 @@ def _split_expr_over_interface(expr, interface, tests=None, trials=None):
     for a in args:
         expr = expr.subs({avg(a): (minus(a) + plus(a))/2})
 
-    # the restriction of grad(w), div(w), ... is grad, div, ... of the restricted w
+    # the restriction of a compound expression (grad(w), dot(grad(w), nn), f*w, ...)
+    # is the same expression of the restricted functions
     for a in expr.atoms(minus, plus):
         arg = a.args[0]
-        if isinstance(arg, _diff_ops) and len(arg.args) == 1:
-            expr = expr.subs(a, type(arg)(type(a)(arg.args[0])))
+        if arg.args and not isinstance(arg, (minus, plus, IndexedVectorFunction)):
+            expr = expr.subs(a, _restrict_to_side(type(a), arg))
     # ...
 
     # ...
